@@ -35,6 +35,9 @@ type Result struct {
 }
 
 func (c *Case) run() (real, realv []Obs) {
+	if c.Hist != nil {
+		return ExecuteHist(c, Dispatches)
+	}
 	return Execute(c, c.Accept(), Dispatches), Execute(c, c.Variant(), Dispatches)
 }
 
@@ -253,9 +256,31 @@ func (r *Result) Human() map[string]interface{} {
 	if c.Absent {
 		acc = nil
 	}
+	var hist interface{}
+	if h := c.Hist; h != nil {
+		var steps []string
+		reg := "restful.RegisterEntityAccessor for"
+		for _, l := range h.Late {
+			reg += " " + l.Name + " (" + l.Codec + " writer)"
+		}
+		for i, t := range h.Traffic {
+			if i == h.RegAt {
+				steps = append(steps, reg)
+			}
+			if t.Absent {
+				steps = append(steps, "GET /w/x without Accept header")
+			} else {
+				steps = append(steps, fmt.Sprintf("GET /w/x with Accept: %q", t.Accept()))
+			}
+		}
+		if h.RegAt >= len(h.Traffic) {
+			steps = append(steps, reg)
+		}
+		hist = map[string]interface{}{"what": "container, web service and route are created ONCE (with the Produces list above; the late types have no writer then), the steps below happen in order, then the judged request is dispatched on the same container", "steps": steps}
+	}
 	return map[string]interface{}{
-		"router": c.Router, "route": "GET /w/x, handler calls resp.WriteEntity(value)", "produces": c.Produces,
-		"registered_writers": append([]string{}, Registry...), "DefaultResponseContentType": c.Default, "handler_calls_PrettyPrint(false)": c.Compact,
+		"router": c.Router, "route": "GET /w/x, handler calls resp.WriteEntity(value)", "produces": c.Produces, "history_of_the_route_before_the_judged_request": hist,
+		"registered_writers": c.RegistryAtJudgement(), "DefaultResponseContentType": c.Default, "handler_calls_PrettyPrint(false)": c.Compact,
 		"content_type_already_on_the_response_when_the_entity_is_written": map[bool]interface{}{true: nil, false: map[string]string{"value": c.Preset, "set_by": c.PresetBy}}[c.Preset == ""],
 		"accept": acc, "accept_second_spelling": c.Variant(), "dispatches_each": Dispatches,
 		"real": obsString(r.Real), "real_second_spelling": obsString(r.RealV),
@@ -310,6 +335,28 @@ func candidates(c Case) (out []Case) {
 		add(func(d *Case) { d.Preset, d.PresetBy = "", "" })
 		if c.PresetBy != "handler-Header().Set" {
 			add(func(d *Case) { d.PresetBy = "handler-Header().Set" })
+		}
+	}
+	if c.Hist != nil {
+		for i := range c.Hist.Traffic {
+			i := i
+			if len(c.Hist.Traffic) > 1 || c.Hist.RegAt == 0 {
+				add(func(d *Case) {
+					d.Hist.Traffic = append(d.Hist.Traffic[:i], d.Hist.Traffic[i+1:]...)
+					if i < d.Hist.RegAt {
+						d.Hist.RegAt--
+					}
+				})
+			}
+			if len(c.Hist.Traffic[i].Ranges) > 1 {
+				for j := range c.Hist.Traffic[i].Ranges {
+					j := j
+					add(func(d *Case) { t := d.Hist.Traffic[i]; t.Ranges = append(t.Ranges[:j], t.Ranges[j+1:]...) })
+				}
+			}
+			if c.Hist.Traffic[i].WS1 != 0 {
+				add(func(d *Case) { d.Hist.Traffic[i].WS1 = 0 })
+			}
 		}
 	}
 	if c.Compact {
@@ -372,6 +419,10 @@ func reportCase(run *report.Run, r *Result, v Verdict, neighbourhood bool) {
 			switch i % 4 {
 			case 0:
 				d.Produces, d.Default = o.Case.Produces, o.Case.Default
+				if o.Case.Hist != nil {
+					oc := o.Case.Clone()
+					d.Produces, d.Hist = oc.Produces, oc.Hist
+				}
 			case 1:
 				e := o.Case.Clone()
 				e.WS1, e.WS2 = d.WS1, d.WS2
@@ -733,10 +784,10 @@ func CheckTracePurity(run *report.Run, n int) error {
 	return nil
 }
 
-func allRegistered(produces []string) bool {
-	for _, p := range produces {
+func allRegistered(c *Case) bool {
+	for _, p := range c.Produces {
 		found := false
-		for _, k := range Registry {
+		for _, k := range c.RegistryAtJudgement() {
 			if k == p {
 				found = true
 			}
@@ -780,8 +831,18 @@ func Check(run *report.Run, n int) error {
 			}
 			cases := make([]*Case, 0, end-start)
 			for i := start; i < end; i++ {
-				c := Gen(base.Fork(uint64(i)))
-				if !allRegistered(c.Produces) {
+				rf := base.Fork(uint64(i))
+				c := Gen(rf)
+				if rf.Chance(1, 4) {
+					// the route object has a history: served before, writers registered late
+					GenHist(rf, c)
+				}
+				if !allRegistered(c) {
+					if c.Hist != nil {
+						c.run()
+						run.Count("traffic:produced-type-without-a-writer-yet(not judged)")
+						continue
+					}
 					// outside the quantifier (a produced type without a writer): served as traffic only —
 					// whatever the lookup remembers from it must not matter once the writer exists
 					Execute(c, c.Accept(), 1)
@@ -803,6 +864,23 @@ func Check(run *report.Run, n int) error {
 				run.Count("branch:" + r.Tag)
 				run.Count("default:" + map[bool]string{true: "unset", false: r.Case.Default}[r.Case.Default == ""])
 				run.Count("router:" + r.Case.Router)
+				if h := r.Case.Hist; h != nil {
+					run.Count("route-history:served-before,late-writers")
+					if h.RegAt > 0 {
+						run.Count(fmt.Sprintf("route-history:served-%d-times-before-the-late-writers-were-registered", h.RegAt))
+					} else {
+						run.Count("route-history:late-writers-registered-before-the-first-request")
+					}
+					for _, rg := range r.Case.Ranges {
+						for _, l := range h.Late {
+							if rg.Media == l.Name {
+								run.Count("route-history:judged-request-names-a-late-type")
+							}
+						}
+					}
+				} else {
+					run.Count("route-history:none(fresh container)")
+				}
 				if r.Case.Preset != "" {
 					run.Count("content-type-preset-by:" + r.Case.PresetBy)
 				} else {
